@@ -19,6 +19,25 @@ pub fn script(seed: u64, idx: u64) -> Trace {
     // scripts observe rarely: the oracle of interest is at flush / hand-back
     t.knobs.observe_pct = if idx % 3 == 0 { 30 } else { 0 };
     t.knobs.disk.write_back = idx % 2 == 1;
+    if idx % 4 == 3 {
+        // a session whose only changes go around the deferred-save machinery:
+        // stream writes and removals, then flush (and a crash right after it)
+        t.knobs.disk.write_back = true;
+        let mut id = t.ops.iter().map(|o| o.id).max().unwrap_or(0) + 1;
+        let mut push = |t: &mut Trace, op: Op| {
+            t.ops.push(OpRec { id, op });
+            id += 1;
+        };
+        push(&mut t, Op::WriteStream { name: "Tail.bin".into(), dseed: 777, steps: vec![WStep::Write(5000), WStep::Flush] });
+        push(&mut t, Op::Restart { mode: CloseMode::IntoInner, edits: Vec::new() });
+        if idx % 8 == 3 {
+            push(&mut t, Op::RemoveStream { name: "Tail.bin".into() });
+        } else {
+            push(&mut t, Op::WriteStream { name: "Tail2.bin".into(), dseed: 778, steps: vec![WStep::Write(300), WStep::Seek(10), WStep::Write(5), WStep::Flush] });
+        }
+        push(&mut t, Op::Flush);
+        push(&mut t, Op::Restart { mode: CloseMode::FlushCrash, edits: Vec::new() });
+    }
     t
 }
 
